@@ -9,6 +9,17 @@
 (*   ScenMode = "c04"   C04: an optional preparatory run that makes a subset of the validators  *)
 (*                      "already attested", then the duty under test with any subset without    *)
 (*                      account and any subset unsigned                                         *)
+(*   ScenMode = "c04ovl" C04: histories of several runs on ONE instance with duties of          *)
+(*                      DIFFERENT composition (slot, validators, committee assignment,          *)
+(*                      positions and committee sizes all vary from run to run; validators,     *)
+(*                      committee indices and slots are re-used across runs with other values), *)
+(*                      every failure branch, and OVERLAP.  The first record of the history     *)
+(*                      names the plan: hold = a pc value: run 1 is held at that point (before  *)
+(*                      the signer has read its request: "sign", inside the signer: "signing",  *)
+(*                      before / inside the submitter: "submit" / "submitting", inside the data *)
+(*                      fetch / accounts lookup) while run 2 - another duty - runs from start   *)
+(*                      to end, then run 1 goes on, later runs follow one after the other       *)
+(*                      (state carried); hold = "any": the runs interleave freely               *)
 EXTENDS Attester, Json
 
 CONSTANTS ScenMode, ScenLen, ScenVals, ScenMaxLen, ScenSlots, ScenComms, ScenPrepSlot
@@ -42,7 +53,11 @@ PrepDuties == {[slot |-> ScenPrepSlot, vals |-> SortedSeq(S), comm |-> [i \in 1.
                 pos |-> [i \in 1..Cardinality(S) |-> SortedSeq(S)[i] % 5], sizes |-> Sizes]
                     : S \in (SUBSET ScenVals) \ {{}}}
 
-SInit == Init /\ succ = {} /\ hist = <<[ev |-> "Reset", spe |-> SlotsPerEpoch, mode |-> ScenMode]>>
+SInit == /\ Init /\ succ = {}
+         /\ IF ScenMode = "c04ovl"
+            THEN hist \in {<<[ev |-> "Reset", spe |-> SlotsPerEpoch, mode |-> ScenMode, hold |-> h]>> :
+                             h \in {"fetch", "accounts", "sign", "signing", "submit", "submitting", "any"}}
+            ELSE hist = <<[ev |-> "Reset", spe |-> SlotsPerEpoch, mode |-> ScenMode]>>
 
 H(e) == hist' = Append(hist, e)
 Marking == {r \in RunIds : run[r].pc = "mark"}
@@ -78,16 +93,15 @@ HistNext ==
                 Accounts(r, A) /\ H([ev |-> "Accounts", run |-> r, err |-> FALSE, accts |-> A]) /\ UNCHANGED succ
         \/ \E n \in 1..4 : Accounts(r, run[r].claimed) /\ H([ev |-> "Accounts", run |-> r, err |-> FALSE, accts |-> run[r].claimed]) /\ UNCHANGED succ
         \/ AccountsErr(r) /\ H([ev |-> "Accounts", run |-> r, err |-> TRUE]) /\ UNCHANGED succ
-        \/ \E Z \in SUBSET run[r].accts :
-                Sign(r, ExpectedReq(run[r]), SignData(run[r]), Z, TRUE)
-                /\ H([ev |-> "Sign", run |-> r, err |-> FALSE, zero |-> Z]) /\ UNCHANGED succ
-        \/ \E n \in 1..4 : Sign(r, ExpectedReq(run[r]), SignData(run[r]), {}, TRUE)
-                /\ H([ev |-> "Sign", run |-> r, err |-> FALSE, zero |-> {}]) /\ UNCHANGED succ
-        \/ Sign(r, ExpectedReq(run[r]), SignData(run[r]), {}, FALSE)
-                /\ H([ev |-> "Sign", run |-> r, err |-> TRUE, zero |-> {}]) /\ UNCHANGED succ
+        \/ SignCall(r, ExpectedReq(run[r]), SignData(run[r])) /\ H([ev |-> "Sign", run |-> r]) /\ UNCHANGED succ
+        \/ \E Z \in SUBSET ReqVals(run[r].req) :
+                SignRet(r, Z, TRUE) /\ H([ev |-> "SignRet", run |-> r, err |-> FALSE, zero |-> Z]) /\ UNCHANGED succ
+        \/ \E n \in 1..4 : SignRet(r, {}, TRUE) /\ H([ev |-> "SignRet", run |-> r, err |-> FALSE, zero |-> {}]) /\ UNCHANGED succ
+        \/ SignRet(r, {}, FALSE) /\ H([ev |-> "SignRet", run |-> r, err |-> TRUE, zero |-> {}]) /\ UNCHANGED succ
+        \/ SubmitCall(r) /\ H([ev |-> "Submit", run |-> r]) /\ UNCHANGED succ
         \/ \E n \in 1..4 :
                 LET ok == n > 1 IN
-                Submit(r, ok) /\ H([ev |-> "Submit", run |-> r, err |-> ~ok])
+                SubmitRet(r, ok) /\ H([ev |-> "SubmitRet", run |-> r, err |-> ~ok])
                 /\ succ' = IF ok THEN succ \cup {r} ELSE succ
         \/ Internal(r) /\ UNCHANGED <<hist, succ>>
 
@@ -113,26 +127,73 @@ C04Next ==
             Deliver(2, d) /\ H([ev |-> "Deliver", run |-> 2, duty |-> run'[2].duty]) /\ UNCHANGED succ
     \/ /\ Fetch(1, GoodData(run[1].duty, 1)) /\ H([ev |-> "Fetch", run |-> 1, err |-> FALSE, data |-> GoodData(run[1].duty, 1)]) /\ UNCHANGED succ
     \/ /\ Accounts(1, run[1].claimed) /\ H([ev |-> "Accounts", run |-> 1, err |-> FALSE, accts |-> run[1].claimed]) /\ UNCHANGED succ
-    \/ /\ Sign(1, ExpectedReq(run[1]), SignData(run[1]), {}, TRUE) /\ H([ev |-> "Sign", run |-> 1, err |-> FALSE, zero |-> {}]) /\ UNCHANGED succ
-    \/ /\ Submit(1, TRUE) /\ H([ev |-> "Submit", run |-> 1, err |-> FALSE]) /\ succ' = succ \cup {1}
+    \/ \E r \in {1, 2} : SignCall(r, ExpectedReq(run[r]), SignData(run[r])) /\ H([ev |-> "Sign", run |-> r]) /\ UNCHANGED succ
+    \/ \E r \in {1, 2} : SubmitCall(r) /\ H([ev |-> "Submit", run |-> r]) /\ UNCHANGED succ
+    \/ /\ SignRet(1, {}, TRUE) /\ H([ev |-> "SignRet", run |-> 1, err |-> FALSE, zero |-> {}]) /\ UNCHANGED succ
+    \/ /\ SubmitRet(1, TRUE) /\ H([ev |-> "SubmitRet", run |-> 1, err |-> FALSE]) /\ succ' = succ \cup {1}
     \/ \E k \in Roots : Fetch(2, GoodData(run[2].duty, k)) /\ H([ev |-> "Fetch", run |-> 2, err |-> FALSE, data |-> GoodData(run[2].duty, k)]) /\ UNCHANGED succ
     \/ \E A \in SUBSET run[2].claimed :
             Accounts(2, A) /\ H([ev |-> "Accounts", run |-> 2, err |-> FALSE, accts |-> A]) /\ UNCHANGED succ
-    \/ \E Z \in SUBSET run[2].accts :
-            Sign(2, ExpectedReq(run[2]), SignData(run[2]), Z, TRUE)
-            /\ H([ev |-> "Sign", run |-> 2, err |-> FALSE, zero |-> Z]) /\ UNCHANGED succ
-    \/ \E ok \in BOOLEAN : Submit(2, ok) /\ H([ev |-> "Submit", run |-> 2, err |-> ~ok]) /\ succ' = IF ok THEN succ \cup {2} ELSE succ
+    \/ \E Z \in SUBSET ReqVals(run[2].req) :
+            SignRet(2, Z, TRUE) /\ H([ev |-> "SignRet", run |-> 2, err |-> FALSE, zero |-> Z]) /\ UNCHANGED succ
+    \/ \E ok \in BOOLEAN : SubmitRet(2, ok) /\ H([ev |-> "SubmitRet", run |-> 2, err |-> ~ok]) /\ succ' = IF ok THEN succ \cup {2} ELSE succ
     \/ \E r \in RunIds : Internal(r) /\ UNCHANGED <<hist, succ>>
+
+
+(* ---- c04ovl: heterogeneous, overlapping histories on one instance ---- *)
+Hold == hist[1].hold
+
+\* may run r take a step of its own now?  (plan "any": always)
+MayStep(r) ==
+    \/ Hold = "any"
+    \/ r = 1 /\ (run[1].pc # Hold \/ run[2].pc = "done")
+    \/ r = 2 /\ run[1].pc \in {Hold, "done"}
+    \/ r > 2 /\ \A q \in RunIds : q < r => run[q].pc = "done"
+
+\* committee sizes differ from duty to duty (a committee index does not determine its size)
+OvlSizes(s, j) == [i \in 1..NC |-> <<i - 1, 6 + 2 * (i - 1) + ((s + j) % 3)>>]
+
+OvlNext ==
+    \/ \E r \in RunIds :
+        /\ run[r].pc = "idle" /\ \A q \in RunIds : q < r => run[q].pc # "idle"
+        /\ MayStep(r)
+        \* one random draw per step; bound variables so that each value is drawn once
+        /\ \E s \in {RandomElement(IF Len(hist) >= 0 THEN ScenSlots ELSE {})} :
+           \E vs \in {RandomElement(IF Len(hist) >= 0 THEN InjSeqs ELSE {})} :
+           \E cs \in {RandomElement([1..Len(vs) -> ScenComms])} :
+           \E j \in {RandomElement(0..4)} :
+             LET d == [slot |-> s, vals |-> vs, comm |-> cs,
+                       pos |-> [i \in DOMAIN vs |-> (vs[i] * 3 + j) % 5], sizes |-> OvlSizes(s, j)] IN
+             Deliver(r, d) /\ H([ev |-> "Deliver", run |-> r, duty |-> run'[r].duty]) /\ UNCHANGED succ
+    \/ \E r \in RunIds :
+        /\ MayStep(r)
+        /\ \/ \E n \in 1..6, k \in Roots : Fetch(r, GoodData(run[r].duty, k)) /\ H([ev |-> "Fetch", run |-> r, err |-> FALSE, data |-> GoodData(run[r].duty, k)]) /\ UNCHANGED succ
+           \/ FetchErr(r) /\ H([ev |-> "Fetch", run |-> r, err |-> TRUE]) /\ UNCHANGED succ
+           \/ \E A \in SUBSET run[r].claimed :
+                   Accounts(r, A) /\ H([ev |-> "Accounts", run |-> r, err |-> FALSE, accts |-> A]) /\ UNCHANGED succ
+           \/ \E n \in 1..6 : Accounts(r, run[r].claimed) /\ H([ev |-> "Accounts", run |-> r, err |-> FALSE, accts |-> run[r].claimed]) /\ UNCHANGED succ
+           \/ AccountsErr(r) /\ H([ev |-> "Accounts", run |-> r, err |-> TRUE]) /\ UNCHANGED succ
+           \/ SignCall(r, ExpectedReq(run[r]), SignData(run[r])) /\ H([ev |-> "Sign", run |-> r]) /\ UNCHANGED succ
+           \/ \E Z \in SUBSET ReqVals(run[r].req) :
+                   SignRet(r, Z, TRUE) /\ H([ev |-> "SignRet", run |-> r, err |-> FALSE, zero |-> Z]) /\ UNCHANGED succ
+           \/ \E n \in 1..6 : SignRet(r, {}, TRUE) /\ H([ev |-> "SignRet", run |-> r, err |-> FALSE, zero |-> {}]) /\ UNCHANGED succ
+           \/ SignRet(r, {}, FALSE) /\ H([ev |-> "SignRet", run |-> r, err |-> TRUE, zero |-> {}]) /\ UNCHANGED succ
+           \/ SubmitCall(r) /\ H([ev |-> "Submit", run |-> r]) /\ UNCHANGED succ
+           \/ \E n \in 1..4 :
+                   LET ok == n > 1 IN
+                   SubmitRet(r, ok) /\ H([ev |-> "SubmitRet", run |-> r, err |-> ~ok])
+                   /\ succ' = IF ok THEN succ \cup {r} ELSE succ
+           \/ Internal(r) /\ UNCHANGED <<hist, succ>>
 
 SNext ==
     /\ Len(hist) <= ScenLen
     /\ IF Marking # {}
        THEN \E r \in Marking, claim \in BOOLEAN : MarkOne(r, claim) /\ UNCHANGED <<hist, succ>>
-       ELSE IF ScenMode = "hist" THEN HistNext ELSE C04Next
+       ELSE IF ScenMode = "hist" THEN HistNext ELSE IF ScenMode = "c04ovl" THEN OvlNext ELSE C04Next
 
 SSpec == SInit /\ [][SNext]_svars
 
-Finished == IF ScenMode = "hist"
+Finished == IF ScenMode \in {"hist", "c04ovl"}
             THEN Len(hist) = ScenLen + 1 \/ \A r \in RunIds : run[r].pc = "done"
             ELSE run[2].pc = "done"
 Emit == Finished => PrintT(ToJson(hist))
